@@ -44,7 +44,7 @@ ASSUMPTIONS = [
 MUST_REACH = {"polls": 3000, "replays_served": 50, "responses_lost": 100, "events_swallowed": 100, "emptied_responses": 20,
               "injected_delivered": 100, "regions_announced": 30, "teardowns": 20, "states": 100, "histories_judged": 200, "announcing_events_covered": 4, "responses_whose_handling_failed": 30,
               "steps_on_other_conversations": 300, "events_injected_as_messages": 100,
-              "responses_with_two_identical_events": 50, "clock_advances": 50}
+              "responses_with_two_identical_events": 50, "events_injected_from_a_reused_message_object": 20, "responses_with_equal_events_apart": 50, "responses_with_look_alike_events": 20, "clock_advances": 50}
 
 KINDS = ["1", "2", "A", "5"]
 ACTIONS = []
@@ -54,7 +54,9 @@ for k in KINDS:
             ACTIONS.append(f"P{k}{lose}{sw}")
 ACTIONS += ["PX", "I", "D", "W"]
 # the other two conversations (a neighbour region's queue, another avatar in the same simulator): walks only
-OTHER_ACTIONS = ["NP1", "NP1L", "NP2", "NI", "ND", "BP1", "BP1L", "BP2a", "BI", "BPA", "BD"]
+OTHER_ACTIONS = ["NP1", "NP1L", "NP2", "NI", "ND", "BP1", "BP1L", "BP2a", "BI", "BPA", "BD",
+                 # three events, the third equal to the first (or its look-alike), none / the first / only the last swallowed
+                 "P3", "P3f", "P3l", "P3Ll", "BP3l"]
 
 
 class EQAddon:
@@ -213,10 +215,19 @@ class World:
                         "body": {"agent-id": str(self.session.agent_id), "sim-ip-and-port": "10.9.9.%d" % (self.next_serial % 200 + 1),
                                  "seed-capability": f"https://sim9.example.invalid/cap/seed-bad-{self.next_serial}"}})
             self.next_serial += 1
-        n = 2 if kind == "2" else 1
+        n = 2 if kind in ("2", "3") else 1
         for _ in range(n):
             evs.append({"message": "HVTestEvent", "body": {"serial": self.next_serial, "text": "line1\nline2"}})
             self.next_serial += 1
+        if kind == "3":
+            # ... and then says the first thing again: equal to the first event as a value - or, every other time, a look-alike
+            # (the same number as a real instead of an integer, which LLSD tells apart and Python's == does not)
+            again = copy.deepcopy(evs[-2])
+            if self.next_serial % 2:
+                again["body"]["serial"] = float(again["body"]["serial"])
+                self.ctx.count("responses_with_look_alike_events")
+            evs.append(again)
+            self.ctx.count("responses_with_equal_events_apart")
         if kind == "2" and self.next_serial % 3 == 0:
             # the simulator says the same thing twice (two events that are equal as values)
             evs[-1] = copy.deepcopy(evs[-2])
@@ -285,6 +296,9 @@ class World:
         elif swallow == "a":
             self.addon.swallow = set(serials)
             self.addon.swallow_idx = set(range(len(serials)))
+        elif swallow == "l":
+            self.addon.swallow = {serials[-1]}
+            self.addon.swallow_idx = {len(serials) - 1}
         if self.addon.swallow:
             ctx.count("events_swallowed", len(self.addon.swallow))
             self.interesting = True
@@ -341,7 +355,13 @@ class World:
                         mech = "swallowed-or-foreign-event-delivered"
                     self.viol(mech, "the response does not carry exactly the simulator's surviving events followed by the "
                               "pending injected events", got=got_serials, expected=expect)
-                # simulator events must come through unchanged
+                # simulator events must come through unchanged (LLSD types included: 7 is not 7.0 on the wire)
+                kept_events = [e for i, e in enumerate(events) if i not in self.addon.swallow_idx]
+                for e, k in zip(got["events"], kept_events):
+                    if repr(e) != repr(k) and e == k:
+                        self.viol("event-content-changed", "the viewer was given a look-alike of the event that was kept (equal as a "
+                                  "Python value, another LLSD type)", got=repr(e)[:200], sent=repr(k)[:200])
+                        break
                 by_serial = {serial_of(e): e for e in events}
                 for e in got["events"]:
                     s = serial_of(e)
@@ -385,10 +405,18 @@ class World:
                 # by the queue's own message serializer
                 from hippolyzer.lib.base.message.message import Message, Block
                 from hippolyzer.lib.base.templates import ChatType, ChatSourceType
-                self.region.eq_manager.inject_message(Message(
-                    "ChatFromSimulator",
-                    Block("ChatData", FromName="hv", SourceID=self.session.agent_id, OwnerID=self.session.agent_id,
-                          SourceType=ChatSourceType.OBJECT, ChatType=ChatType.OWNER, Audible=1, Position=(1.0, 2.0, 3.0), Message=s)))
+                if self.next_serial % 4 == 1 and getattr(self, "_chat_template", None) is not None:
+                    # the addon keeps ONE message object around as its template: new text, injected again (what was injected
+                    # before is what it was then)
+                    self._chat_template["ChatData"]["Message"] = s
+                    self.region.eq_manager.inject_message(self._chat_template)
+                    self.ctx.count("events_injected_from_a_reused_message_object")
+                else:
+                    self._chat_template = Message(
+                        "ChatFromSimulator",
+                        Block("ChatData", FromName="hv", SourceID=self.session.agent_id, OwnerID=self.session.agent_id,
+                              SourceType=ChatSourceType.OBJECT, ChatType=ChatType.OWNER, Audible=1, Position=(1.0, 2.0, 3.0), Message=s))
+                    self.region.eq_manager.inject_message(self._chat_template)
                 self.ctx.count("events_injected_as_messages")
             else:
                 self.region.eq_manager.inject_event({"message": "HVInjected", "body": {"serial": s}})
@@ -436,7 +464,7 @@ class World:
         else:
             kind = action[1]
             lose = "L" in action[2:]
-            sw = "f" if action.endswith("f") else "a" if action.endswith("a") else ""
+            sw = "f" if action.endswith("f") else "a" if action.endswith("a") else "l" if action.endswith("l") else ""
             self.poll(kind, lose, sw)
 
     def finish(self):
